@@ -383,6 +383,41 @@ fn exec_msgs(bytes: &[u8]) -> String {
     format!("{} then={}", listing(&items), then)
 }
 
+/// ` proto=ok` / ` proto=<iterator>:<failure>`: common::iter_protocol on the iterators of the request
+/// (only called after the plain next() listing of the same octets returned)
+fn proto_c16(op: &str, bytes: &[u8]) -> String {
+    let mut p = Proto::new();
+    if !p.on() { return format!(" {}", p.token()); }
+    let f = MrtFile::new(bytes);
+    let entry = |(pfx, idx, attrs): &(inetnum::addr::Prefix, u16, Vec<u8>)| format!("{},{},{}", prefix_str(pfx), idx, hex(attrs));
+    match op {
+        "rib" => if f.rib_entries().is_ok() {
+            p.it("rib_entries()", || f.rib_entries().ok().unwrap(),
+                |(fam, idx, peer, pfx, attrs)| format!("{},{},{},{},{}", fam_str(*fam), idx, peer_str(peer), prefix_str(pfx), hex(attrs)), MAX_ITEMS);
+        },
+        "tables" => if f.tables().is_ok() {
+            p.it("tables()", || f.tables().ok().unwrap(), |(fam, reh)| table_str(fam_str(*fam), reh), MAX_ITEMS);
+            for (i, (_, reh)) in f.tables().ok().unwrap().take(MAX_ITEMS).enumerate() {
+                p.it(&format!("SingleEntryIterator(table-{})", i), || SingleEntryIterator::new(reh), entry, MAX_ITEMS);
+            }
+        },
+        "single4" | "single6" => {
+            let mut parser = Parser::from_ref(&bytes);
+            if let Ok(reh) = RibEntryHeader::parse(&mut parser, if op == "single6" { Afi::Ipv6 } else { Afi::Ipv4 }) {
+                p.it("SingleEntryIterator", || SingleEntryIterator::new(reh), entry, MAX_ITEMS);
+            }
+        }
+        _ => p.it("messages()", || f.messages(), |m| match m {
+            Bgp4Mp::StateChange(sc) => format!("sc,{},{},{},{}", sc.peer_asn().into_u32(), sc.local_asn().into_u32(), u16::from(sc.old_state()), u16::from(sc.new_state())),
+            Bgp4Mp::StateChangeAs4(sc) => format!("sc4,{},{},{},{}", sc.peer_asn().into_u32(), sc.local_asn().into_u32(), u16::from(sc.old_state()), u16::from(sc.new_state())),
+            // (Debug holds the header fields and the sub-parser's window into the file)
+            Bgp4Mp::Message(m) => format!("m,{:?}", m).replace(' ', ""),
+            Bgp4Mp::MessageAs4(m) => format!("m4,{:?}", m).replace(' ', ""),
+        }, MAX_ITEMS),
+    }
+    format!(" {}", p.token())
+}
+
 fn exec_hdr(bytes: &[u8]) -> String {
     let mut parser = Parser::from_ref(&bytes);
     match CommonHeader::parse(&mut parser) {
@@ -891,13 +926,13 @@ impl Prop for C16 {
         match w.as_slice() {
             ["hdr", h] => match unhex(h) { Some(b) => exec_hdr(&b), None => "bad-op".into() },
             ["peers", h] => match unhex(h) { Some(b) => exec_peers(&b), None => "bad-op".into() },
-            ["single", fam, h] => match (bit(fam), unhex(h)) { (Some(v6), Some(b)) => exec_single(v6, &b), _ => "bad-op".into() },
+            ["single", fam, h] => match (bit(fam), unhex(h)) { (Some(v6), Some(b)) => { let r = exec_single(v6, &b); if r.starts_with("ok") { r + &proto_c16(if v6 { "single6" } else { "single4" }, &b) } else { r } }, _ => "bad-op".into() },
             [op @ ("rib" | "tables"), h, spec] => {
                 let b = match unhex(h) { Some(b) => b, None => return "bad-op".into() };
                 let same = match file_spec_arg(spec) { SpecArg::Bad => return "bad-op".into(), SpecArg::None => None,
                     SpecArg::Some(f) => Some(ref_file(&f) == b) };
                 let r = if *op == "rib" { exec_rib(&b) } else { exec_tables(&b) };
-                if r.starts_with("ok") { r + enc_tok(same) } else { r }
+                if r.starts_with("ok") { r + enc_tok(same) + &proto_c16(op, &b) } else { r }
             }
             ["mt", th, reps, h, spec] => {
                 let reps: usize = match num(reps) { Some(r) if (1..=50).contains(&r) => r, _ => return "bad-op".into() };
@@ -913,13 +948,13 @@ impl Prop for C16 {
                 let same = match recs_spec_arg(spec) { SpecArg::Bad => return "bad-op".into(), SpecArg::None => None,
                     SpecArg::Some(rs) => Some(ref_recs(&rs) == b) };
                 let r = exec_msgs(&b);
-                if r.starts_with("ok") { r + enc_tok(same) } else { r }
+                if r.starts_with("ok") { r + enc_tok(same) + &proto_c16("msgs", &b) } else { r }
             }
             ["skip", h, spec] => {
                 let b = match unhex(h) { Some(b) => b, None => return "bad-op".into() };
                 if parse_recs(spec).is_none() { return "bad-op".into(); }
                 let r = exec_msgs(&b);
-                if r.starts_with("ok") { r + enc_tok(None) } else { r }
+                if r.starts_with("ok") { r + enc_tok(None) + &proto_c16("msgs", &b) } else { r }
             }
             ["trunc", k, h, spec] => {
                 let b = match unhex(h) { Some(b) => b, None => return "bad-op".into() };
@@ -927,7 +962,7 @@ impl Prop for C16 {
                 let same = match recs_spec_arg(spec) { SpecArg::Bad => return "bad-op".into(), SpecArg::None => None,
                     SpecArg::Some(rs) => Some(ref_recs(&rs) == b) };
                 let r = exec_msgs(&b[..k]);
-                if r.starts_with("ok") { r + enc_tok(same) } else { r }
+                if r.starts_with("ok") { r + enc_tok(same) + &proto_c16("msgs", &b[..k]) } else { r }
             }
             _ => "bad-op".into(),
         }
@@ -936,6 +971,10 @@ impl Prop for C16 {
     /// the property, judged from the content the reference encoder was given
     fn oracle(&self, line: &str, reply: &str) -> Result<(), String> {
         let w: Vec<&str> = line.split(' ').collect();
+        // the iterator-protocol verdict (last token): judged where the property speaks (lines that carry their
+        // content description); on irregular / mutated input the line diff against the model's constant remains
+        if w.last() != Some(&"-") && w[0] != "single" { proto_judge(reply)?; }
+        let reply = reply.strip_suffix(" proto=ok").unwrap_or(reply);
         if reply.starts_with("nondeterministic") { return Err(format!("parallel iterator: {}", reply)); }
         if let ["skip", _, spec] = w.as_slice() {
             let rs = parse_recs(spec).ok_or("unparsable spec")?;
